@@ -94,6 +94,8 @@ MUTANTS = [
      "            exec(include_code, scope)\n", "            exec(include_code, {}, scope)\n", ["C15"]),
     ("revert-D30-gc-ignore-errors", "cli/gc.py",
      "    shutil.rmtree(path, onerror=retry)\n", "    shutil.rmtree(path, ignore_errors=True)\n", ["C13"]),
+    ("revert-D31-serialize-oserror", "execution/ops/run_task_executable.py",
+     "            except OSError as ex:\n                # E.g., the task removed its own output directory.", "            except ZeroDivisionError as ex:\n                # E.g., the task removed its own output directory.", ["C03"]),
     ("loader-no-dup-check", "parsing/task_index.py",
      "                    if dep_identifier in task_deps_set:\n", "                    if dep_identifier in task_deps_set and len(task_deps) > 2:\n", ["C14"]),
 ]
